@@ -5,5 +5,6 @@ CONSTANTS
   RegFilters = {}
   CtxNames = {}
   Budget = 0
+  CrossFamily = "none"
 INVARIANTS OutcomeTotal
 PROPERTIES ExecOnlyAfterCompile
